@@ -219,6 +219,12 @@ def runReg (args : List Sexp) : Option String := do
     | some ("c", [c]) => s := Registry.step s (.concrete (← c.nat?))
     | some ("s", [c]) => s := Registry.step s (.symbolic (← c.nat?))
     | some ("clr", []) => s := Registry.step s .clear
+    | some ("infself", [c, t]) =>
+        -- a rule creating one instance of `c` per instance of `t` (and subclasses) constructed so far
+        let k := (Registry.query sub s (← t.nat?)).length
+        let c ← c.nat?
+        s := (List.replicate k (Registry.Op.concrete c)).foldl Registry.step s
+        outs := outs ++ [s!"N{k}"]
     | some ("q", [c]) =>
         let r := (Registry.query sub s (← c.nat?)).mergeSort (fun a b => a ≤ b)
         outs := outs ++ [",".intercalate (r.map toString)]
